@@ -2,7 +2,8 @@
 (***************************************************************************)
 (* pydoctor/visitor.py : Visitor.walk / Visitor.walkabout with visitor     *)
 (* extensions (ExtList, When) and the tree pruning exceptions raised by    *)
-(* the MAIN visitor's visit_* method.                                      *)
+(* the MAIN visitor's visit_* method, or (SkipSiblings, "stop after this   *)
+(* node") by its depart_* method.                                          *)
 (*                                                                         *)
 (* One action per call the implementation emits (each extension's and the  *)
 (* main visitor's visit / depart) and one per control transfer (pruning    *)
@@ -24,7 +25,9 @@ CONSTANTS MaxN,        \* enumeration bound on the number of nodes
           Modes,       \* subset of {"walk", "walkabout"} for the enumeration
           Histories    \* subset of {"fresh", "rewalk"}
 
-PruneKinds == {"none", "SkipChildren", "SkipSiblings", "SkipNode", "SkipDeparture"}
+\* "DepartSkipSiblings": visit_* returns normally, depart_* raises SkipSiblings (only meaningful in walkabout)
+PruneKinds == {"none", "SkipChildren", "SkipSiblings", "SkipNode", "SkipDeparture", "DepartSkipSiblings"}
+VisitPrune(k) == IF k = "DepartSkipSiblings" THEN "none" ELSE k        \* what visit_* raises
 ExtIds == {"B", "B2", "A", "I", "O"}
 When(e) == CASE e \in {"B", "B2"} -> "BEFORE" [] e = "A" -> "AFTER" [] e = "I" -> "INNER" [] e = "O" -> "OUTTER"
 RegOrder == <<"B", "B2", "A", "I", "O">>    \* registration order inside one `when` bucket (ExtList.add)
@@ -53,6 +56,8 @@ InitEnum == /\ Source = "enum" /\ cid = 0
             /\ exts \in SUBSET ExtIds
             /\ ("B2" \in exts => "B" \in exts)
             /\ mode \in Modes
+            /\ (mode = "walk" => \A i \in 1..n : prune[i] # "DepartSkipSiblings")     \* walk() never departs
+            /\ Cardinality({i \in 1..n : prune[i] = "DepartSkipSiblings"}) <= 1       \* one pruning departure per tree
             \* the history of the visitor object before this walk: "fresh", or "rewalk" = it has already walked a tree
             \* while it had no extension at all, and the extensions were added afterwards (ExtList.add).  The contract
             \* speaks of the extensions registered NOW: nothing below depends on hist (frame condition).
@@ -86,7 +91,7 @@ VisitPre == /\ Running /\ Top.ph = "Vpre"
 \* super().visit(ob) : the main visitor's visit_*; a pruning exception is remembered, not raised yet
 VisitMain == /\ Running /\ Top.ph = "Vmain"
              /\ Emit("main", "visit", Top.node)
-             /\ SetTop([Top EXCEPT !.ph = "Vpost", !.k = 1, !.pruning = prune[Top.node]])
+             /\ SetTop([Top EXCEPT !.ph = "Vpost", !.k = 1, !.pruning = VisitPrune(prune[Top.node])])
              /\ UNCHANGED <<exc, status>>
 VisitPostExt == /\ Running /\ Top.ph = "Vpost" /\ Top.k <= Len(PostV)
                 /\ Emit(PostV[Top.k], "visit", Top.node) /\ SetTop([Top EXCEPT !.k = @ + 1])
@@ -135,9 +140,11 @@ DepartPre == /\ Running /\ Top.ph = "Dpre"
                   THEN Emit(PreD[Top.k], "depart", Top.node) /\ SetTop([Top EXCEPT !.k = @ + 1])
                   ELSE UNCHANGED events /\ SetTop([Top EXCEPT !.ph = "Dmain"])
              /\ UNCHANGED <<exc, status>>
+\* super().depart(ob): a pruning exception raised by depart_* is remembered until the remaining extensions have left
 DepartMain == /\ Running /\ Top.ph = "Dmain"
               /\ IF Top.callDepart THEN Emit("main", "depart", Top.node) ELSE UNCHANGED events
-              /\ SetTop([Top EXCEPT !.ph = "Dpost", !.k = 1])
+              /\ SetTop([Top EXCEPT !.ph = "Dpost", !.k = 1,
+                                    !.pruning = IF Top.callDepart /\ prune[Top.node] = "DepartSkipSiblings" THEN "SkipSiblings" ELSE @])
               /\ UNCHANGED <<exc, status>>
 DepartPost == /\ Running /\ Top.ph = "Dpost"
               /\ IF Top.k <= Len(PostD)
@@ -200,7 +207,7 @@ RECURSIVE Visited(_)
 Visited(x) == IF x = 1 THEN TRUE
               ELSE /\ Visited(parent[x])
                    /\ prune[parent[x]] \notin {"SkipChildren", "SkipNode"}
-                   /\ \A s \in Elder(x) : ~(Visited(s) /\ prune[s] = "SkipSiblings")
+                   /\ \A s \in Elder(x) : ~(Visited(s) /\ prune[s] \in {"SkipSiblings", "DepartSkipSiblings"})
 PruningMeans == Terminal => \A x \in 1..n : Seen("main", "visit", x) <=> Visited(x)
 
 Contract == /\ EnteredAtMostOnce /\ NoEscape /\ ExtBalanced /\ MainBalanced /\ WalkNoDepart
